@@ -1,12 +1,18 @@
 """C20 — display normalisation (custom_normalizations.py + visualization.py callers).
 
 Tie to the source, two routes, both on every run:
-  * translator: `pregenerate()` rewrites lean/QuantemModel/Generated/Stretch.lean from the bodies of the
-    *Stretch classes (harness/translator/stretch2lean.py); the theorems of Props/C20.lean are then
-    re-checked against what the code says now;
-  * correspondence: the real classes and the Lean definitions (generated stretches + hand model
-    Model/Norm.lean) are run on the same inputs through Driver/C20.lean and compared.
-Failing-input search: the property's own clauses evaluated on the real code's outputs.
+  * tracer: `pregenerate()` rewrites lean/QuantemModel/Generated/Stretch.lean by EXECUTING the *Stretch classes and
+    BaseInterval.__call__/inverse of $QVERIF_REPO on symbolic values (harness/translator/stretch2lean.py); the theorems of
+    Props/C20.lean are then re-checked against what the code computes now.  The tie is semantic: renamed locals, private
+    helpers, in-place operators / out= / ndarray methods / np.divide aliases, commuted products give the same text;
+  * correspondence: the real classes and the Lean definitions (generated text + hand model Model/Norm.lean) are run on the
+    same inputs through Driver/C20.lean and compared.
+Failing-input search: the property's own clauses evaluated on the real code's outputs, on single calls and on HISTORIES of
+operations on one object (stretch parameter assigned after .inverse was read; rejected vmin/vmax assignments and rejected
+calls between valid calls of one CustomNormalization).
+quantem-PRIVATE names (_resolve_normalization, _show_2d_array, _show_2d_combined) are resolved defensively (`_private`): if a
+refactoring removed one, the internal-stage stream is skipped with a note in the evidence and the public streams decide.
+Exception MESSAGES are never compared, only types.
 """
 import math
 from fractions import Fraction
@@ -14,29 +20,40 @@ from fractions import Fraction
 LEVEL = "proof"
 MANIFEST_ENTRY = {
     "category": "proof",
-    "text": "Lean 4 theorems at ℝ about the Lean text that a purpose-written Python-ast→Lean translator regenerates on every run from the "
-            "bodies of the six *Stretch classes (__call__ pipelines, inverse properties, __post_init__ guards) plus a hand model of the "
-            "intervals, CustomNormalization and the preset table: the interval map is monotone into [0,1] and sends vmin/vmax to 0/1; every "
-            "stretch with admissible parameters maps [0,1] into [0,1], fixes 0 and 1, is monotone, and S(S.inverse y)=y on [0,1] with the "
-            "inverse the class declares; each generated body equals its closed form (generated_eq_spec); the composition is monotone into "
-            "[0,1], NaN is masked, for every stretch CustomNormalization can select and for all ten presets, with limits frozen by _set_limits or "
-            "recomputed from the argument; manual/centered/quantile limits are ordered (the modelled NumPy linear quantile is monotone in q and "
-            "lies between min and max); the declared inverse is two-sided and CustomNormalization.inverse round-trips with the forward map on "
-            "[vmin,vmax] / [0,1]. The generated text and the hand "
-            "model are run at Float against the real classes (exact equality on the float64 linear path, 1e-9 / 5e-4 otherwise) and the "
-            "property clauses are evaluated on the real outputs as the failing-input search.",
-    "note": "Trusted: Lean kernel + propext/Classical.choice/Quot.sound, the translator (≈300 lines, cross-checked by the Float "
-            "correspondence on the very functions it translates), NumPy ufunc/promotion/quantile/masked_invalid semantics (modelled, sampled), "
-            "IEEE rounding (theorems are over ℝ; measured deviation reported). Degenerate limits vmin=vmax make the 'limits to 0 and 1' clause "
-            "unsatisfiable and are excluded from that clause only; inverted limits (vmin>vmax) and LinearStretch with non-default "
-            "slope/intercept are outside the quantifier (correspondence only).",
-    "technique": "Lean 4 proof over translator-generated definitions + model-vs-implementation correspondence",
+    "text": "Lean 4 theorems at ℝ about the Lean text that a purpose-written TRACER regenerates on every run by executing the six "
+            "*Stretch classes (construction guards, __call__, inverse) and BaseInterval.__call__/inverse of the current source on "
+            "symbolic values (operators, in-place operators, out=, ndarray methods, NumPy protocols; parameter branches explored; "
+            "canonical output) plus a hand model of get_limits, CustomNormalization and the preset table: the interval map is "
+            "monotone into [0,1] and sends vmin/vmax to 0/1; every stretch with admissible parameters maps [0,1] into [0,1], fixes 0 "
+            "and 1, is monotone, and S(S.inverse y)=y on [0,1] with the inverse the class declares — for every parameter, hence for "
+            "the parameter an object carries at any point of its life; each generated body equals its closed form "
+            "(generated_eq_spec_*, proved by shape-independent tactics: carrier rewriting, case split on the parameter tests, "
+            "ring normalisation); the composition is monotone into [0,1], NaN is masked, for every stretch CustomNormalization can "
+            "select and for all ten presets, with limits frozen by _set_limits or recomputed from the argument; manual/centered/"
+            "quantile limits are ordered; the declared inverse is two-sided and CustomNormalization.inverse round-trips; INVARIANT "
+            "over every history of operations on one object (calls, inverses, _set_limits, rejected operations, operations that "
+            "raise): stretch kept, limits ordered, every returning call satisfies the property (history_invariant, "
+            "history_call_spec, history_frozen). The generated text and the hand model are run at Float against the real classes "
+            "(exact equality on the float64 linear path, 1e-9 / 5e-4 otherwise), single calls and histories, and the property "
+            "clauses are evaluated on the real outputs as the failing-input search.",
+    "note": "Trusted: Lean kernel + propext/Classical.choice/Quot.sound, the tracer (≈1000 lines; cross-checked by the Float "
+            "correspondence on the very functions it traces), NumPy ufunc/promotion/quantile/masked_invalid semantics (modelled, sampled), "
+            "IEEE rounding (theorems are over ℝ; measured deviation reported). Measured only: that __call__/inverse/rejected operations "
+            "leave the real object unchanged (the step function of the history model; stream nhist), aliasing (copy=False in-place "
+            "effect = return value; stream norm), ±inf/NaN pixels through the interval (hand model intervalExt). Degenerate limits "
+            "vmin=vmax make the 'limits to 0 and 1' clause unsatisfiable and are excluded from that clause only; inverted limits "
+            "(vmin>vmax) and LinearStretch with non-default slope/intercept are outside the quantifier (correspondence only). "
+            "Constructs the tracer cannot follow (data-dependent branches, float()/math.* on a parameter without the module's math, "
+            "isinstance(param, float) validation, unknown ufuncs, dtype changes) surface as a broken tie, never as a crash.",
+    "technique": "Lean 4 proof over tracer-generated definitions + model-vs-implementation correspondence (single calls and histories)",
 }
 RULE = ("a case is one (array, configuration, frozen|lazy) through CustomNormalization, one (stretch class, parameters, sample vector) "
-        "through S / S.inverse / S∘S.inverse, one _resolve_normalization call, or one _show_2d_* call; distinct non-trivial = distinct "
+        "through S / S.inverse / S∘S.inverse, one history on a stretch object (class, how the object is reached, parameter sequence), one "
+        "history on a CustomNormalization (configuration, mode, operation sequence with rejected operations), one _resolve_normalization "
+        "call, or one _show_2d_* / show_2d call; distinct non-trivial = distinct "
         "(stream, dtype, ndim, mode, interval kind and which limits are explicit and their Python type, stretch class actually selected, "
-        "NaN present, inf present, outcome) with at least two distinct finite values")
-TRUSTED = ["harness/translator/stretch2lean.py (Python ast → Lean; grammar in its docstring)",
+        "NaN present, inf present, outcome; histories: class/how/length, rejected operations) with at least two distinct finite values")
+TRUSTED = ["harness/translator/stretch2lean.py (symbolic execution of the real classes → Lean; what it follows and what it refuses is in its docstring)",
            "NumPy: ufunc out= semantics, NEP-50 promotion, np.quantile(method='linear') (modelled step by step, compared exactly on float64), "
            "np.ma.masked_invalid; matplotlib Normalize vmin/vmax setters (_sanitize_extrema)"]
 ASSUMPTIONS = [
@@ -48,8 +65,10 @@ ASSUMPTIONS = [
     "automatic limits are read as declared by the interval type (centered: vcenter -/+ max|x - vcenter|, nothing clipped; manual without limits: data min/max): the reported limits must equal them (1e-12 relative, 1e-5 on float32) and pixel values more than 1e-3 of the range apart must be displayed differently (float64/int path)",
     "every input form of one declared configuration (keyword shorthand with one or both limits / quantiles, dict, NormalizationConfig) through the public show_2d must draw the identical image (ax.images[0]), and pixels at/beyond a declared limit are black/white; show_2d has no CustomNormalization-instance form and ignores keyword overrides next to a preset string, so those are not forms",
     "0-d and empty arrays, bool/complex dtypes and float16 are outside the quantifier (bool: correspondence only)",
+    "histories: the stretches are public mutable dataclasses, so 'every stretch parameter' includes the parameter an object carries after an assignment of another ADMISSIBLE value (also on a copy.copy of the object, also reached as norm.stretch); an assignment of a colour limit that matplotlib REJECTS, or a call on an argument that cannot be normalised, is followed by valid calls which must satisfy the property as if the rejected operation had not happened. ACCEPTED assignments of norm.vmin/norm.vmax are not part of a history (what they mean for the interval is not for C20 to say)",
+    "in a history the limits the configuration declares for the array in hand (quantile: NumPy's linear quantile as oracle) decide 'at/beyond the limit -> 0 / 1', with slack max(1e-9, 1e-13**power)",
 ]
-EXPLANATION = ("Theorems in Props/C20.lean are about Generated/Stretch.lean (regenerated from the source each run) and Model/Norm.lean; "
+EXPLANATION = ("Theorems in Props/C20.lean are about Generated/Stretch.lean (regenerated by executing the source each run) and Model/Norm.lean; "
                "each run executes both at Float against the real code and evaluates the property clauses on the real outputs.")
 
 DTYPES = ["int8", "int16", "int32", "int64", "uint8", "uint16", "uint32", "uint64", "float32", "float64"]
@@ -64,8 +83,9 @@ DEFAULT_CFG = {"interval_type": "quantile", "stretch_type": "linear", "lower_qua
 
 
 def pregenerate():
-    """called by the runner before `lake build`: retranslate the *Stretch classes of $QVERIF_REPO/src.
-    Raises TranslationError (recorded as a broken tie, the previous file stays) if the source left the grammar."""
+    """called by the runner before `lake build`: trace the *Stretch classes / BaseInterval of $QVERIF_REPO/src again.
+    Raises TranslationError (recorded as a broken tie, the previous file stays) if the code does something the tracer
+    cannot follow; it never crashes the check."""
     from translator import stretch2lean
     stretch2lean.regenerate()
     return None
@@ -1644,6 +1664,30 @@ def gen_nhist_case(rng, i):
     return {"stream": "nhist", "cfg": cfg, "mode": mode, "data0": data0, "ops": ops}
 
 
+def declared_limits(cfg, arr):
+    """the limits the configuration DECLARES for this array (oracle, float64; independent of the code under test):
+    manual: the given limits, a missing side is the min / max of the finite data; centered: vcenter -/+ half_range,
+    a missing half range is max|x - vcenter|; quantile: NumPy's linear quantiles of the finite data"""
+    np = _np()
+    flat = arr.ravel()
+    fin = (flat[np.isfinite(flat)] if flat.dtype.kind == "f" else flat).astype(np.float64)
+    if len(fin) == 0:
+        return None
+    it = cfg["interval_type"]
+    if it == "manual":
+        lo = float(cfg["vmin"]) if cfg["vmin"] is not None else float(fin.min())
+        hi = float(cfg["vmax"]) if cfg["vmax"] is not None else float(fin.max())
+    elif it == "centered":
+        vc = float(cfg["vcenter"])
+        h = float(cfg["half_range"]) if cfg["half_range"] is not None else float(np.max(np.abs(fin - vc)))
+        lo, hi = vc - h, vc + h
+    elif it == "quantile":
+        lo, hi = (float(v) for v in np.quantile(fin, [cfg["lower_quantile"], cfg["upper_quantile"]]))
+    else:
+        return None
+    return lo, hi
+
+
 def one_nhist(ctx, drv, case):
     np = _np()
     cfg, mode = case["cfg"], case["mode"]
@@ -1755,6 +1799,22 @@ def one_nhist(ctx, drv, case):
         t = slack(cfg, arr.dtype)
         if not clauses_range_mono_nan(ctx, case, hsig, xs, impl["out"], t):
             return
+        # the limits the configuration declares (from the freezing array, or from this argument when lazy): pixels at or
+        # beyond them sit at 0 / 1 — also for the 2nd, 3rd, … array a lazy object is applied to
+        dl = declared_limits(cfg, arr0 if frozen else arr)
+        if dl is not None and dl[0] < dl[1] and arr.dtype != np.float32:
+            ctx.dist["nhist:limits-beyond-checked"] += 1
+            tiny_p = (1e-13 ** float(sel[1])) if sel[0] == "PowerLawStretch" else 0.0
+            te0, te1 = max(t, 1e-9, tiny_p), max(t, 1e-9)
+            for j, (x, y) in enumerate(zip(xs, impl["out"])):
+                if isinstance(x, float) and (x != x or math.isinf(x)):
+                    continue
+                want = 0.0 if x <= dl[0] else (1.0 if x >= dl[1] else None)
+                if want is not None and (y is None or abs(y - want) > (te0 if want == 0.0 else te1)):
+                    ctx.pred_fail("limits-beyond:" + hsig, "a pixel at/beyond the limit the configuration declares for this array is not at 0 / 1"
+                                  + (" (call number %d on this object)" % (1 + sum(1 for o in case["ops"][:k] if o["op"] == "call"))), case,
+                                  observed=dict(step, declared_vmin=dl[0], declared_vmax=dl[1], x=x, out=y), required=want)
+                    return
         if frozen and "ok" in m:
             lo, hi = unbits(m["ok"]["vmin"]), unbits(m["ok"]["vmax"])
             rlo, rhi = norm.vmin, norm.vmax
